@@ -584,15 +584,22 @@ def wrapper(ctx, method, process, keep_mean):
 
 
 @contract(P, "transform.field.binary/two-values-split-at-divide", params=[{"process": pr, "keep_mean": km, "defaults": d}
-          for (pr, km) in ((False, True), (False, False), (True, True), (True, False)) for d in (True, False)],
+          for (pr, km) in ((False, True), (False, False), (True, True), (True, False))
+          for d in (True, False, "divide-only", "values-only")],
           functions=["transform/field.py:binary", "transform/array.py:array_discrete"], bounded="2 stored field values")
 def binary(ctx, process, keep_mean, defaults):
     m = ctx.m
     fld, model, mu, trend, zs, stored, sill = make_field(ctx, process)
     tmean = 0.0 if (process and not keep_mean) else mu
-    if defaults:    # documented: divide = mean, upper/lower = mean +- sqrt(sill)
+    if defaults is True:    # documented: divide = mean, upper/lower = mean +- sqrt(sill)
         divide, upper, lower = tmean, tmean + m.sqrt(sill), tmean - m.sqrt(sill)
         kw = {}
+    elif defaults == "values-only":     # each default is independent: custom values, divide stays the mean
+        divide, upper, lower = tmean, ctx.real("upper"), ctx.real("lower")
+        kw = dict(upper=upper, lower=lower)
+    elif defaults == "divide-only":
+        divide, upper, lower = ctx.real("divide"), tmean + m.sqrt(sill), tmean - m.sqrt(sill)
+        kw = dict(divide=divide)
     else:
         divide, upper, lower = ctx.real("divide"), ctx.real("upper"), ctx.real("lower")
         kw = dict(divide=divide, upper=upper, lower=lower)
